@@ -508,6 +508,13 @@ def subscript(I, obj, idx, node):
         return obj.item(idx if idx >= 0 else obj.length + idx)
     if obj is None:
         raise sx.SymRaise(TypeError, "None is not subscriptable: " + sx._txt(node))
+    import types as _types
+    if isinstance(obj, _types.MappingProxyType) and isinstance(idx, str):
+        # a class's __dict__: the raw attribute (used by harness code to reach a classmethod's function)
+        try:
+            return obj[idx]
+        except KeyError:
+            raise sx.SymRaise(KeyError, sx._txt(node))
     raise SymError("subscript on %s (%s)" % (type(obj).__name__, sx._txt(node)))
 
 
